@@ -445,6 +445,22 @@ def def_min_len(expr: ast.AST, func: FuncInfo, prog=None, concrete=None, depth=0
             pat = match_pattern(m, func)
             if pat is not None:
                 return len(regex_groups(pat))
+        # a helper of the repository with a single return: the bound of what it returns (its parameters unknown)
+        if prog is not None and d:
+            callee = None
+            if d.startswith("self.") and d.count(".") == 1 and concrete is not None:
+                callee = prog.resolve_method(concrete, d.split(".")[1])
+            elif not d.startswith("self"):
+                try:
+                    res = prog.resolve_dotted(func.module, d)
+                except Exception:
+                    res = None
+                if res and res[0] == "func":
+                    callee = res[1]
+            if callee is not None and callee is not func:
+                rets = [n for n in ast.walk(callee.node) if isinstance(n, ast.Return)]
+                if len(rets) == 1 and rets[0].value is not None:
+                    return def_min_len(rets[0].value, callee, prog, callee.cls or concrete, depth + 2)
     if isinstance(expr, ast.ListComp) and len(expr.generators) == 1 and not expr.generators[0].ifs:
         return def_min_len(expr.generators[0].iter, func, prog, concrete, depth + 1)
     if isinstance(expr, ast.Subscript) and not isinstance(expr.slice, ast.Slice):
